@@ -240,6 +240,10 @@ def gen_scenario(seed: int, light: bool = False) -> Dict[str, Any]:
             sc["clamps"] = clamps
             sc["swing"] = True
     sc["links"] = links
+    # a mistyped link first (its follower is at no vertex): add_link refuses it, the script carries on
+    br = rs.sub("badlink")
+    if clamps and br.chance(0.25):
+        sc["bad_links"] = [{"leader": br.pick([c["node"] for c in clamps]), "offset": [round(br.uniform(0.2, 9.0), 3) for _ in range(3)]}]
     sc["repeat"] = rs.chance(0.4)  # optimize() is called a second time on the same optimizer
     sc["method"] = rs.pick(METHODS if not light else ["SLSQP", "L-BFGS-B"])
     sc["iterations"] = rs.randint(1, 3 if not light else 2)
@@ -595,6 +599,16 @@ def run_scenario(sc: Dict[str, Any], clock_plan: Optional[str] = None, max_evals
                 except Exception as e:
                     bad("add-clamp", f"{spec['type']} clamp created at vertex {i} could not be registered: {type(e).__name__}: {e}")
             link_specs = []
+            for bl in sc.get("bad_links", []):
+                li = index_of(bl["leader"])
+                if li not in clamp_of:
+                    continue
+                lp = grid.points[li].copy()
+                try:
+                    opt.add_link(cb.TranslationLink(lp, lp + np.array(bl["offset"]) + 1000.0))
+                    stats["bad_link_accepted"] = stats.get("bad_link_accepted", 0) + 1
+                except Exception:
+                    stats["bad_link_refused"] = stats.get("bad_link_refused", 0) + 1
             for lk in sc["links"]:
                 li, fi = index_of(lk["leader"]), index_of(lk["follower"])
                 if li not in clamp_of:
